@@ -885,3 +885,404 @@ Section ClassicCore.
           eapply ext_le_trans; [exact Hi1|]. eapply ext_le_trans; [|exact Lo2]. apply HU; lia.
   Qed.
 End ClassicCore.
+
+Lemma cq_tail_mono bs forced q1 q2 :
+  StronglySorted ext_le (ubs bs) -> nondecreasing (ccs bs) -> Forall (fun b => 0 <= cc b) bs ->
+  0 <= q1 -> q1 <= q2 -> q2 <= 1 ->
+  exists r1 r2, cq_tail bs forced q1 = QOk r1 forced /\ cq_tail bs forced q2 = QOk r2 forced /\
+                (r1 = RNaN \/ r2 = RNaN \/ res_le r1 r2).
+Proof.
+  intros SU SC FN H0 H12 H1. unfold cq_tail.
+  destruct (Nat.ltb (length bs) 2) eqn:En; [exists RNaN, RNaN; auto|].
+  apply Nat.ltb_ge in En.
+  destruct (Qeq_bool (cc (nthb bs (length bs - 1))) 0) eqn:Eo; [exists RNaN, RNaN; auto|].
+  qb.
+  assert (HC : forall i j, (i <= j)%nat -> (j < length bs)%nat -> cc (nthb bs i) <= cc (nthb bs j)).
+  { intros i j Hij Hj. unfold nthb.
+    rewrite <- !(map_nth cc). apply nondecreasing_nth; auto. unfold ccs in *. rewrite map_length. auto. }
+  assert (HU : forall i j, (i <= j)%nat -> (j < length bs)%nat -> ext_le (ub (nthb bs i)) (ub (nthb bs j))).
+  { intros i j Hij Hj. unfold nthb.
+    rewrite <- !(map_nth ub). apply ss_nth; auto; [apply ext_le_refl|]. unfold ubs in *. rewrite map_length. auto. }
+  assert (HN : forall i, (i < length bs)%nat -> 0 <= cc (nthb bs i)).
+  { intros i Hi. rewrite Forall_forall in FN. apply FN. apply nth_In. auto. }
+  assert (Hobs : 0 < cc (nthb bs (length bs - 1))).
+  { specialize (HN (length bs - 1)%nat ltac:(lia)). lra. }
+  set (obs := cc (nthb bs (length bs - 1))) in *.
+  destruct (search_chosen bs En HC (q1 * obs)) as (b1 & S1 & C1).
+  destruct (search_chosen bs En HC (q2 * obs)) as (b2 & S2 & C2).
+  rewrite S1, S2.
+  exists (cq_val bs b1 (q1 * obs)), (cq_val bs b2 (q2 * obs)). split; auto. split; auto.
+  eapply cq_val_mono; eauto; nra.
+Qed.
+
+Lemma cinsert_nonempty b l : cinsert b l <> [].
+Proof. destruct l; simpl; [discriminate|]. destruct (ext_leb _ _); discriminate. Qed.
+
+(* BucketQuantile never decreases with q, for any non-empty bucket set with non-negative finite
+   counts (not necessarily monotonic); a NaN result (possible only in the situations listed in
+   [bucket_quantile] — no +Inf bucket, < 2 distinct bounds, no observations, or q*obs = 0 with an
+   empty lowest bucket) is not ordered *)
+Theorem bucket_quantile_mono bs0 q1 q2 :
+  bs0 <> [] -> Forall (fun b => 0 <= cc b) bs0 ->
+  0 <= q1 -> q1 <= q2 -> q2 <= 1 ->
+  exists r1 r2 f, bucket_quantile q1 bs0 = QOk r1 f /\ bucket_quantile q2 bs0 = QOk r2 f /\
+                  (r1 = RNaN \/ r2 = RNaN \/ res_le r1 r2).
+Proof.
+  intros Hne FN H0 H12 H1.
+  rewrite !bucket_quantile_unfold by lra.
+  assert (Hs : csort bs0 <> []).
+  { destruct bs0; [congruence|]. simpl. apply cinsert_nonempty. }
+  destruct (csort bs0) as [|x l] eqn:Es; [congruence|]. rewrite <- Es.
+  destruct (negb (is_pinf (ub (last (csort bs0) dflt)))); [exists RNaN, RNaN, false; auto|].
+  destruct (coalesce_spec (csort bs0) (csort_sorted bs0) (csort_forall _ _ FN)) as (CS & CF).
+  destruct (ensure_monotonic small_delta_tolerance (coalesce (csort bs0))) as [bs forced] eqn:Ee.
+  destruct (ensure_monotonic_nondecreasing _ _ _ _ Ee) as (EN & EU & EF).
+  destruct (cq_tail_mono bs forced q1 q2) as (r1 & r2 & A & B & C); auto.
+  - rewrite EU. exact CS.
+  - exists r1, r2, forced. auto.
+Qed.
+
+(* ================================================================== HistogramFraction *)
+Section FractionProofs.
+  Variable fexp : Q -> Q -> Q -> Q.
+  (* Bucket.FractionBelow(v, false) for v strictly inside a standard-schema bucket (a,b):
+     between 0 and 1 and monotone in v (it is a linear function of log2 |v|) *)
+  Hypothesis fexp_range : forall a b x, a < x -> x < b -> 0 <= fexp a b x /\ fexp a b x <= 1.
+  Hypothesis fexp_mono : forall a b x1 x2, a < x1 -> x1 <= x2 -> x2 < b -> fexp a b x1 <= fexp a b x2.
+
+  Variable h : hist.
+
+  (* the rank the loop of HistogramFraction assigns to ONE bound v (None = never set) *)
+  Fixpoint cdf_loop (v : ext) (bs : list bucket) (rank : Q) : option Q :=
+    match bs with
+    | [] => None
+    | b :: r =>
+        let '(l, u, lineark) := fadjust h b in
+        if ext_leb v l then Some rank
+        else if ext_ltb l v && ext_ltb v u then Some (frac_interp fexp lineark l u (bc b) rank v)
+        else cdf_loop v r (rank + bc b)
+    end.
+
+  Definition clampN (o : option Q) : Q :=
+    match o with
+    | Some x => if Qlt_bool (h_count h) x then h_count h else x
+    | None => h_count h
+    end.
+  Definition cdf (v : ext) : Q := clampN (cdf_loop v (h_buckets h) 0).
+
+  Definition optl (s : fstate) := if fs_lset s then Some (fs_lrank s) else None.
+  Definition optu (s : fstate) := if fs_uset s then Some (fs_urank s) else None.
+
+  (* the loop computes the two ranks independently of each other *)
+  Lemma floop_cdf lo up : forall bs s s' rest,
+    floop fexp h lo up bs s = (s', rest) ->
+    (fs_lset s && fs_uset s = false) ->
+    optl s' = (if fs_lset s then Some (fs_lrank s) else cdf_loop lo bs (fs_rank s)) /\
+    optu s' = (if fs_uset s then Some (fs_urank s) else cdf_loop up bs (fs_rank s)).
+  Proof.
+    induction bs as [|b bs IH]; intros s s' rest E Hns; simpl in E.
+    - inversion E; subst. unfold optl, optu. simpl.
+      destruct (fs_lset s'), (fs_uset s'); auto.
+    - unfold fstep in E. simpl cdf_loop.
+      destruct (fadjust h b) as [[l u] lineark].
+      destruct s as [cnt rank lr ur ls us]; simpl in *.
+      destruct ls, us; simpl in *; try discriminate.
+      + (* lower set, upper not *)
+        destruct (ext_leb up l) eqn:U1; simpl in E.
+        * inversion E; subst. unfold optl, optu; simpl. auto.
+        * destruct (ext_ltb l up && ext_ltb up u) eqn:U2; simpl in E.
+          { inversion E; subst. unfold optl, optu; simpl. auto. }
+          { apply IH in E; simpl in *; auto. }
+      + (* upper set, lower not *)
+        destruct (ext_leb lo l) eqn:L1; simpl in E.
+        * inversion E; subst. unfold optl, optu; simpl. auto.
+        * destruct (ext_ltb l lo && ext_ltb lo u) eqn:L2; simpl in E.
+          { inversion E; subst. unfold optl, optu; simpl. auto. }
+          { apply IH in E; simpl in *; auto. }
+      + (* neither set *)
+        destruct (ext_leb lo l) eqn:L1; destruct (ext_leb up l) eqn:U1; simpl in E.
+        * inversion E; subst. unfold optl, optu; simpl. auto.
+        * destruct (ext_ltb l up && ext_ltb up u) eqn:U2; simpl in E.
+          { inversion E; subst. unfold optl, optu; simpl. auto. }
+          { apply IH in E; simpl in *; auto. }
+        * destruct (ext_ltb l lo && ext_ltb lo u) eqn:L2; simpl in E.
+          { inversion E; subst. unfold optl, optu; simpl. auto. }
+          { apply IH in E; simpl in *; auto. }
+        * destruct (ext_ltb l lo && ext_ltb lo u) eqn:L2;
+          destruct (ext_ltb l up && ext_ltb up u) eqn:U2; simpl in E.
+          { inversion E; subst. unfold optl, optu; simpl. auto. }
+          { apply IH in E; simpl in *; auto. }
+          { apply IH in E; simpl in *; auto. }
+          { apply IH in E; simpl in *; auto. }
+  Qed.
+
+  Lemma hfranks_cdf lo up :
+    sum_nan h = false -> hfranks fexp lo up h = (cdf lo, cdf up).
+  Proof.
+    intro Hs. unfold hfranks, cdf.
+    destruct (floop fexp h lo up (h_buckets h) (mkFS 0 0 0 0 false false)) as [s rest] eqn:E.
+    destruct (floop_cdf lo up _ _ _ _ E eq_refl) as (A & B). simpl in A, B.
+    rewrite Hs. rewrite <- A, <- B. unfold optl, optu, clampN.
+    destruct (fs_lset s), (fs_uset s); simpl; reflexivity.
+  Qed.
+
+  Definition ole (o1 o2 : option Q) : Prop :=
+    match o1, o2 with
+    | Some a, Some b => a <= b
+    | _, None => True
+    | None, Some _ => False
+    end.
+
+  Lemma clampN_mono o1 o2 : ole o1 o2 -> clampN o1 <= clampN o2.
+  Proof.
+    unfold clampN. destruct o1 as [a|], o2 as [b|]; simpl; intro H; try tauto; try lra.
+    - destruct (Qlt_bool (h_count h) a) eqn:Ea, (Qlt_bool (h_count h) b) eqn:Eb; qb; lra.
+    - destruct (Qlt_bool (h_count h) a) eqn:Ea; qb; lra.
+  Qed.
+
+  (* brute-force reasoning on the order of extended rationals *)
+  Ltac ext_brute :=
+    repeat match goal with
+    | H : ext_le _ _ |- _ => unfold ext_le in H
+    | H : ext_lt _ _ |- _ => unfold ext_lt in H
+    | H : _ && _ = true |- _ => apply andb_true_iff in H; destruct H
+    end;
+    unfold ext_ltb in *;
+    repeat match goal with
+    | x : ext |- _ => destruct x
+    end; simpl in *; try discriminate; try tauto;
+    repeat match goal with
+    | H : negb _ = true |- _ => apply negb_true_iff in H
+    | H : negb _ = false |- _ => apply negb_false_iff in H
+    | H : _ && _ = false |- _ => apply andb_false_iff in H; destruct H
+    end; try discriminate; qb; try lra.
+
+  (* facts about the adjusted bounds of a well-formed bucket *)
+  Lemma fadjust_facts b l u k :
+    wf_bucket (h_custom h) b -> fadjust h b = (l, u, k) ->
+    ext_le l u /\ (l = NInf -> bl b = NInf) /\
+    (k = false -> exists x y, l = Fin x /\ u = Fin y /\ x < y).
+  Proof.
+    intros (Hlt & Hni & Hfin) E. unfold fadjust in E.
+    destruct (ext_leb (bl b) (Fin 0) && ext_leb (Fin 0) (bu b)) eqn:Z.
+    - rewrite orb_true_r in E.
+      apply andb_true_iff in Z. destruct Z as (Z1 & Z2).
+      destruct (negb (h_hasneg h) && h_haspos h).
+      + inversion E; subst. split; [exact Z2|]. split; [discriminate|discriminate].
+      + destruct (negb (h_haspos h) && h_hasneg h); inversion E; subst.
+        * split; [exact Z1|]. split; [auto|discriminate].
+        * split; [apply ext_lt_le; auto|]. split; [auto|discriminate].
+    - rewrite orb_false_r in E. inversion E; subst.
+      split; [apply ext_lt_le; auto|]. split; [auto|].
+      intro Hc. destruct (Hfin Hc) as (x & y & Ex & Ey). exists x, y.
+      rewrite Ex, Ey in *. split; auto. split; auto. apply ext_lt_fin. exact Hlt.
+  Qed.
+
+  Lemma fi_bounds k l u c rank v :
+    0 <= c -> (l = NInf -> rank == 0) ->
+    (k = false -> exists x y, l = Fin x /\ u = Fin y /\ x < y) ->
+    ext_lt l v -> ext_lt v u ->
+    rank <= frac_interp fexp k l u c rank v /\ frac_interp fexp k l u c rank v <= rank + c.
+  Proof.
+    intros Hc Hn Hk H1 H2. unfold frac_interp.
+    destruct v as [|x|]; [ext_brute| |ext_brute].
+    destruct k.
+    - destruct l as [|a|], u as [|b|]; try (split; lra).
+      + specialize (Hn eq_refl). split; lra.
+      + specialize (Hn eq_refl). split; lra.
+      + specialize (Hn eq_refl). split; lra.
+      + apply ext_lt_fin in H1, H2.
+        destruct (div_range (x - a) (b - a)) as (F0 & F1 & _); try lra. split; nra.
+    - destruct (Hk eq_refl) as (a & b & -> & -> & Hab).
+      apply ext_lt_fin in H1, H2. destruct (fexp_range a b x H1 H2). split; nra.
+  Qed.
+
+  Lemma fi_mono k l u c rank v1 v2 :
+    0 <= c ->
+    (k = false -> exists x y, l = Fin x /\ u = Fin y /\ x < y) ->
+    ext_lt l v1 -> ext_le v1 v2 -> ext_lt v2 u ->
+    frac_interp fexp k l u c rank v1 <= frac_interp fexp k l u c rank v2.
+  Proof.
+    intros Hc Hk H1 H12 H2. unfold frac_interp.
+    destruct v1 as [|x1|]; [ext_brute| |ext_brute].
+    destruct v2 as [|x2|]; [ext_brute| |ext_brute].
+    apply ext_le_fin in H12.
+    destruct k.
+    - destruct l as [|a|], u as [|b|]; try lra.
+      apply ext_lt_fin in H1, H2.
+      destruct (div_range (x1 - a) (b - a)) as (F0 & F1 & M1); try lra.
+      destruct (div_range (x2 - a) (b - a)) as (G0 & G1 & M2); try lra.
+      assert ((x1 - a) / (b - a) <= (x2 - a) / (b - a)).
+      { apply Qmult_lt_0_le_reg_r with (z := b - a); lra. }
+      nra.
+    - destruct (Hk eq_refl) as (a & b & -> & -> & Hab).
+      apply ext_lt_fin in H1, H2. assert (fexp a b x1 <= fexp a b x2) by (apply fexp_mono; auto).
+      nra.
+  Qed.
+
+  Lemma tail_no_ninf b bs :
+    StronglySorted (fun a b => ext_le (bu a) (bl b)) (b :: bs) -> wf_bucket (h_custom h) b ->
+    forall b', In b' bs -> bl b' <> NInf.
+  Proof.
+    intros S (Hlt & _) b' I E. inversion S as [|? ? _ F]; subst.
+    rewrite Forall_forall in F. specialize (F _ I). rewrite E in F.
+    destruct (bl b), (bu b); ext_brute.
+  Qed.
+
+  Lemma cdf_loop_lower v : forall bs rank x,
+    Forall (fun b => 0 <= bc b) bs -> Forall (wf_bucket (h_custom h)) bs ->
+    StronglySorted (fun a b => ext_le (bu a) (bl b)) bs ->
+    (forall b, In b bs -> bl b = NInf -> rank == 0) ->
+    cdf_loop v bs rank = Some x -> rank <= x.
+  Proof.
+    induction bs as [|b bs IH]; intros rank x FN FW SS P E; simpl in E; [discriminate|].
+    destruct (fadjust h b) as [[l u] k] eqn:Ea.
+    inversion FN as [|? ? Hc FN']; subst. inversion FW as [|? ? Hw FW']; subst.
+    destruct (fadjust_facts b l u k Hw Ea) as (Hlu & Hnl & Hk).
+    destruct (ext_leb v l) eqn:A; [inversion E; lra|].
+    destruct (ext_ltb l v && ext_ltb v u) eqn:B.
+    - inversion E; subst. apply andb_true_iff in B. destruct B as (B1 & B2).
+      apply fi_bounds; auto. intro En. apply (P b); [left; auto|auto].
+    - assert (rank + bc b <= x); [|lra].
+      apply IH; auto.
+      + inversion SS; auto.
+      + intros b' I En. exfalso. eapply tail_no_ninf; eauto.
+  Qed.
+
+  Lemma cdf_loop_mono v1 v2 : ext_le v1 v2 -> forall bs rank,
+    Forall (fun b => 0 <= bc b) bs -> Forall (wf_bucket (h_custom h)) bs ->
+    StronglySorted (fun a b => ext_le (bu a) (bl b)) bs ->
+    (forall b, In b bs -> bl b = NInf -> rank == 0) ->
+    ole (cdf_loop v1 bs rank) (cdf_loop v2 bs rank).
+  Proof.
+    intros H12. induction bs as [|b bs IH]; intros rank FN FW SS P; simpl; [exact I|].
+    destruct (fadjust h b) as [[l u] k] eqn:Ea.
+    inversion FN as [|? ? Hc FN']; subst. inversion FW as [|? ? Hw FW']; subst.
+    destruct (fadjust_facts b l u k Hw Ea) as (Hlu & Hnl & Hk).
+    assert (Hn : l = NInf -> rank == 0) by (intro En; apply (P b); [left; auto|auto]).
+    assert (SS' : StronglySorted (fun a b => ext_le (bu a) (bl b)) bs) by (inversion SS; auto).
+    assert (P' : forall b', In b' bs -> bl b' = NInf -> rank + bc b == 0).
+    { intros b' I En. exfalso. eapply tail_no_ninf; eauto. }
+    destruct (ext_leb v1 l) eqn:A1.
+    - destruct (ext_leb v2 l) eqn:A2; [simpl; lra|].
+      destruct (ext_ltb l v2 && ext_ltb v2 u) eqn:B2.
+      + simpl. apply andb_true_iff in B2. destruct B2 as (B21 & B22).
+        apply fi_bounds; auto.
+      + destruct (cdf_loop v2 bs (rank + bc b)) as [x2|] eqn:E2; simpl; auto.
+        apply cdf_loop_lower in E2; auto. lra.
+    - destruct (ext_ltb l v1 && ext_ltb v1 u) eqn:B1.
+      + apply andb_true_iff in B1. destruct B1 as (B11 & B12).
+        destruct (ext_leb v2 l) eqn:A2; [exfalso; clear - A1 A2 B11 H12; ext_brute|].
+        destruct (ext_ltb l v2 && ext_ltb v2 u) eqn:B2.
+        * simpl. apply andb_true_iff in B2. destruct B2 as (B21 & B22). apply fi_mono; auto.
+        * destruct (cdf_loop v2 bs (rank + bc b)) as [x2|] eqn:E2; simpl; auto.
+          apply cdf_loop_lower in E2; auto.
+          destruct (fi_bounds k l u (bc b) rank v1); auto. lra.
+      + destruct (ext_leb v2 l) eqn:A2; [exfalso; clear - A1 A2 H12; ext_brute|].
+        destruct (ext_ltb l v2 && ext_ltb v2 u) eqn:B2; [exfalso; clear - A1 B1 A2 B2 H12; ext_brute|].
+        apply IH; auto.
+  Qed.
+
+  Hypothesis W : wf_hist h.
+
+  Lemma top_P : forall b, In b (h_buckets h) -> bl b = NInf -> 0 == 0.
+  Proof. intros; lra. Qed.
+
+  Lemma cdf_mono v1 v2 : ext_le v1 v2 -> cdf v1 <= cdf v2.
+  Proof.
+    intro H. unfold cdf. apply clampN_mono. destruct W.
+    apply cdf_loop_mono; auto. apply top_P.
+  Qed.
+
+  Lemma cdf_range v : 0 <= cdf v /\ cdf v <= h_count h.
+  Proof.
+    unfold cdf, clampN. assert (Hp := wf_pos h W).
+    destruct (cdf_loop v (h_buckets h) 0) as [x|] eqn:E; [|lra].
+    apply cdf_loop_lower in E; try (destruct W; auto; fail); [|apply top_P].
+    destruct (Qlt_bool (h_count h) x) eqn:Ex; qb; lra.
+  Qed.
+
+  Lemma fadjust_l_not_pinf b l u k :
+    wf_bucket (h_custom h) b -> fadjust h b = (l, u, k) -> l <> PInf.
+  Proof.
+    intros (Hlt & _) E. unfold fadjust in E.
+    destruct (ext_leb (bl b) (Fin 0) && ext_leb (Fin 0) (bu b)) eqn:Z.
+    - apply andb_true_iff in Z. destruct Z as (Z1 & Z2).
+      destruct (negb (h_hasneg h) && h_haspos h); [inversion E; discriminate|].
+      destruct (negb (h_haspos h) && h_hasneg h); inversion E; subst;
+        intro Hp; rewrite Hp in Z1; discriminate.
+    - inversion E; subst. intro Hp. rewrite Hp in Hlt. unfold ext_lt, ext_ltb in Hlt.
+      destruct (bu b); discriminate.
+  Qed.
+
+  Lemma cdf_loop_pinf : forall bs rank,
+    Forall (wf_bucket (h_custom h)) bs -> cdf_loop PInf bs rank = None.
+  Proof.
+    induction bs as [|b bs IH]; intros rank FW; simpl; auto.
+    inversion FW as [|? ? Hw FW']; subst.
+    destruct (fadjust h b) as [[l u] k] eqn:Ea.
+    assert (Hl := fadjust_l_not_pinf b l u k Hw Ea).
+    destruct l; try congruence; simpl; apply IH; auto.
+  Qed.
+
+  Lemma cdf_pinf : cdf PInf = h_count h.
+  Proof. unfold cdf. rewrite cdf_loop_pinf; [reflexivity|apply (wf_bkt h W)]. Qed.
+
+  Lemma cdf_ninf : cdf NInf == 0.
+  Proof.
+    unfold cdf. assert (Hp := wf_pos h W). assert (Ht := wf_tot h W).
+    destruct (h_buckets h) as [|b bs] eqn:E; [simpl in Ht; lra|].
+    simpl. destruct (fadjust h b) as [[l u] k]. simpl.
+    replace (Qlt_bool (h_count h) 0) with false by (symmetry; apply Qlt_bool_false; lra). lra.
+  Qed.
+
+  Lemma hfraction_eq lo up :
+    hfraction fexp lo up h =
+    if ext_leb up lo then R (Fin 0) else R (Fin ((cdf up - cdf lo) / h_count h)).
+  Proof.
+    unfold hfraction. assert (Hp := wf_pos h W).
+    replace (Qeq_bool (h_count h) 0) with false by (symmetry; apply Qeq_bool_false; lra).
+    destruct (ext_leb up lo); [reflexivity|].
+    rewrite hfranks_cdf; [reflexivity|apply (wf_sum h W)].
+  Qed.
+
+  (* the fraction lies in [0, 1] *)
+  Theorem fraction_range lo up :
+    exists x, hfraction fexp lo up h = R (Fin x) /\ 0 <= x /\ x <= 1.
+  Proof.
+    rewrite hfraction_eq. assert (Hp := wf_pos h W).
+    destruct (ext_leb up lo) eqn:E; [exists 0; split; [reflexivity|lra]|].
+    eexists; split; [reflexivity|].
+    apply ext_leb_false, ext_lt_le in E. assert (Hm := cdf_mono lo up E).
+    destruct (cdf_range lo), (cdf_range up).
+    destruct (div_range (cdf up - cdf lo) (h_count h)) as (A & B & _); try lra. auto.
+  Qed.
+
+  (* it does not decrease when the interval grows *)
+  Theorem fraction_mono l1 u1 l2 u2 :
+    ext_le l2 l1 -> ext_le u1 u2 ->
+    exists x1 x2, hfraction fexp l1 u1 h = R (Fin x1) /\ hfraction fexp l2 u2 h = R (Fin x2) /\ x1 <= x2.
+  Proof.
+    intros Hl Hu. assert (Hp := wf_pos h W).
+    destruct (fraction_range l2 u2) as (x2 & E2 & R20 & R21).
+    rewrite hfraction_eq in *.
+    destruct (ext_leb u1 l1) eqn:E1.
+    - exists 0, x2. split; [reflexivity|]. split; [exact E2|lra].
+    - apply ext_leb_false in E1.
+      assert (E2' : ext_leb u2 l2 = false).
+      { apply ext_leb_false. clear - E1 Hl Hu. destruct l1, u1, l2, u2; ext_brute. }
+      rewrite E2' in *. eexists; eexists. split; [reflexivity|]. split; [reflexivity|].
+      assert (A := cdf_mono l2 l1 Hl). assert (B := cdf_mono u1 u2 Hu).
+      apply Qmult_lt_0_le_reg_r with (z := h_count h); auto.
+      unfold Qdiv. rewrite <- !Qmult_assoc.
+      setoid_replace (/ h_count h * h_count h) with 1 by (field; lra). lra.
+  Qed.
+
+  (* and it is 1 over (-Inf, +Inf) *)
+  Theorem fraction_total :
+    exists x, hfraction fexp NInf PInf h = R (Fin x) /\ x == 1.
+  Proof.
+    rewrite hfraction_eq. simpl. eexists; split; [reflexivity|].
+    rewrite cdf_pinf. assert (Hp := wf_pos h W). rewrite cdf_ninf. field. lra.
+  Qed.
+End FractionProofs.
